@@ -2,7 +2,10 @@ package harness
 
 import (
 	"fmt"
+	"strings"
 	"time"
+
+	"github.com/omec-project/upf-epc/pfcpiface"
 
 	"github.com/omec-project/upf-epc/zzverif/vsim"
 	"github.com/wmnsk/go-pfcp/ie"
@@ -12,14 +15,120 @@ import (
 func init() {
 	Register(&PropDef{
 		ID: "C07", QuickRuns: 2400, Level: "exploration", Race: true,
-		Rule: "one run = 1-3 associations establishing 3-14 sessions with CHOOSE F-TEIDs on the BESS datapath, some rounds with all peers sending at the same instant, sessions deleted in between; the per-association random source is honest, or adversarial (cycle of 1-3 values, constant, zero first - injected through the rand.NewSource seam), and the TEID cursor is placed 0-3 below the 32-bit wrap-around through the bridge. Oracle: live sessions of one association have pairwise different non-zero UP F-SEIDs (otherwise the establishment must have been refused); UP-chosen TEIDs are non-zero and pairwise distinct among live sessions of all associations; the F-SEID and F-TEIDs in the response are the values in the PDR entries of the simulated BESS (image check). Non-trivial = at least two accepted sessions and an adversarial source or wrap-around or concurrent round; distinct = different (source mode, cursor, outcome sequence). Also: one peer releases its association while others hold sessions; one run in five on the P4Runtime datapath with deletions refused after a failed Write.",
+		Rule:   "one run = 1-3 associations establishing 3-14 sessions with CHOOSE F-TEIDs on the BESS datapath, some rounds with all peers sending at the same instant, sessions deleted in between; the per-association random source is honest, or adversarial (cycle of 1-3 values, constant, zero first - injected through the rand.NewSource seam), and the TEID cursor is placed 0-3 below the 32-bit wrap-around through the bridge. Oracle: live sessions of one association have pairwise different non-zero UP F-SEIDs (otherwise the establishment must have been refused); UP-chosen TEIDs are non-zero and pairwise distinct among live sessions of all associations; the F-SEID and F-TEIDs in the response are the values in the PDR entries of the simulated BESS (image check). Non-trivial = at least two accepted sessions and an adversarial source or wrap-around or concurrent round; distinct = different (source mode, cursor, outcome sequence). Also: one peer releases its association while others hold sessions; one run in five on the P4Runtime datapath with deletions refused after a failed Write. One run in four exercises the TEID generator itself: 2-6 simulated tasks allocate and free on one real FTEIDGenerator under statement-level pre-emption; an id is held from the return of Allocate to the call of FreeID (global stamps) and may not be held twice at once.",
 		Assume: []string{"the adversarial random source replaces only the source handed to rand.New for the association's SEID generator"},
-		Real: CommonReal, Simulated: CommonSim,
+		Real:   CommonReal, Simulated: CommonSim,
 		Scenario: scenarioC07,
 	})
 }
 
+type teidHold struct {
+	task     int
+	id       uint32
+	from, to uint64 // stamps: Allocate returned ... FreeID called (0 = never freed)
+}
+
+//go:norace
+func c07Publish(out [][]teidHold, done []bool, t int, mine []teidHold) {
+	vsim.Call(func() {
+		out[t] = mine
+		done[t] = true
+	})
+}
+
+// c07API: the TEID generator itself under concurrent callers (the agent calls it
+// from one goroutine per association): 2-6 simulated tasks allocate and free on
+// one real FTEIDGenerator under statement-level pre-emption; an id is held from
+// the return of Allocate to the call of FreeID (global stamps), and no id may be
+// held twice at the same time, none may be 0.
+func c07API(r *Run) {
+	gen := pfcpiface.NewFTEIDGenerator()
+	r.DrawStrategy()
+	if r.Sim.MaxGap == 0 && r.Sim.Strat != vsim.StratPCT {
+		r.Sim.MaxGap = []int{4, 12, 40}[r.Ch.Choose(3, "gap2")]
+		r.Sim.ArmPreempt()
+	}
+	ntasks := 2 + r.Ch.Choose(5, "ntasks")
+	plans := make([][]int, ntasks)
+	for t := range plans {
+		for k := 0; k < 3+r.Ch.Choose(12, "nops"); k++ {
+			plans[t] = append(plans[t], r.Ch.Choose(3, "op")/2) // 0 allocate (2 in 3), 1 free the oldest
+		}
+	}
+	out := make([][]teidHold, ntasks)
+	done := make([]bool, ntasks)
+	stampCounter = 0
+	for t := 0; t < ntasks; t++ {
+		t := t
+		r.Sim.Spawn(1, fmt.Sprintf("teid-client-%d", t), func() {
+			var mine []teidHold
+			var open []int
+			for _, op := range plans[t] {
+				if op == 0 {
+					id, err := gen.Allocate()
+					st := stampNow()
+					if err == nil {
+						mine = append(mine, teidHold{task: t, id: id, from: st})
+						open = append(open, len(mine)-1)
+					}
+				} else if len(open) > 0 {
+					h := &mine[open[0]]
+					open = open[1:]
+					h.to = stampNow()
+					gen.FreeID(h.id)
+				}
+			}
+			c07Publish(out, done, t, mine)
+		})
+	}
+	r.Sim.RunUntil(func() bool {
+		for _, d := range done {
+			if !d {
+				return false
+			}
+		}
+		return true
+	}, r.until(time.Second))
+	for t, d := range done {
+		if !d {
+			r.Violate("C07", "teid-generator-hangs", "TEID client %d did not finish: an operation blocks\n%s", t, strings.Join(r.Sim.BlockedTable(), "\n"))
+			return
+		}
+	}
+	r.CheckNoPanics("C07")
+	var all []teidHold
+	for _, l := range out {
+		all = append(all, l...)
+	}
+	r.Accepted++
+	r.Skel(fmt.Sprintf("api tasks=%d holds=%d", ntasks, len(all)))
+	r.Probe("teid-generator-under-concurrent-callers")
+	const never = ^uint64(0)
+	for i := range all {
+		if all[i].to == 0 {
+			all[i].to = never
+		}
+	}
+	for i, a := range all {
+		if a.id == 0 {
+			r.Violate("C07", "zero-teid:api", "Allocate returned TEID 0 to task %d", a.task)
+			return
+		}
+		for _, b := range all[i+1:] {
+			if a.id == b.id && a.from < b.to && b.from < a.to {
+				r.Violate("C07", "teid-reused:api", "TEID %d was handed to task %d (held from stamp %d) while task %d still held it (from stamp %d, not yet freed at that point)", a.id, b.task, b.from, a.task, a.from)
+				return
+			}
+		}
+	}
+	r.Op("api layer: %d tasks, %d allocations", ntasks, len(all))
+}
+
 func scenarioC07(r *Run) {
+	if r.Ch.Choose(4, "layer") == 1 {
+		c07API(r)
+		return
+	}
 	r.FirstOnly = true
 	r.Conf = DefaultBESSConf()
 	// one run in five on the P4Runtime datapath, where a Session Deletion can be
